@@ -1949,6 +1949,14 @@ pub fn stuck_reason(w: &World, p: usize, _g: usize, cid: u64) -> Option<String> 
         // crashed after proposing and before writing: the proposal only exists on the wire
         return Some("own proposal lost in crash".into());
     }
+    if msg.refs.iter().any(|r| {
+        let pm = &w.msgs[r];
+        pm.private && !mem.cached.contains(r) && w.ext.rolled_back.contains(&(pm.sender, _g, pm.epoch))
+    }) {
+        // an encrypted proposal of a sender whose ratchet a crash rolled back: its generation may have been
+        // used again for another message, which this member may have taken first
+        return Some("referenced proposal encrypted with a re-used generation".into());
+    }
     None
 }
 
